@@ -70,6 +70,9 @@ def run(tier, corrupt=False):
                     cases.append({"kind": "mut", "prog": r["prog"], "obj": r["obj"], "salt": 0, "actions": acts})
                     meta.append((r, "constructed"))
                     if any(a["op"] == "mutate_arg" for a in acts):
+                        # the instance may not have been looked at yet when the caller changes its list (nothing is copied lazily)
+                        cases.append({"kind": "mut", "prog": r["prog"], "obj": r["obj"], "salt": 0, "actions": acts, "blind": True})
+                        meta.append((r, "constructed, not read before the history"))
                         # the caller's iterable need not be a list: byte-sized integer arrays are also passed as a bytearray
                         cases.append({"kind": "mut", "prog": r["prog"], "obj": r["obj"], "salt": 0, "actions": acts, "arg_kind": "bytearray"})
                         meta.append((r, "constructed from bytearray"))
@@ -106,6 +109,8 @@ def run(tier, corrupt=False):
                     if o["ctor_exc"]:
                         continue        # constructibility is C02's business
                     init = o["initial"]
+                    if init.get("write_differs"):
+                        v.violation(f"{r['prog']} ({how}) write() differs from serialize()", "the packet's write() does not produce the bytes of serialize()", {"prog": r["prog"], "how": how, "obj": r["obj"], "initial": init})
                     if init["proj_after_serialize"] != init["proj"] or init.get("repr_changed_by_serialize"):
                         v.violation(f"{r['prog']} ({how}) serialize changes the instance", f"serializing changed the instance: {short(init['proj'])} -> {short(init['proj_after_serialize'])}",
                                     {"prog": r["prog"], "how": how, "obj": r["obj"], "initial": init})
